@@ -1,6 +1,7 @@
 package fstxn
 
 import (
+	"github.com/mit-pdos/go-journal/addr"
 	"github.com/mit-pdos/go-journal/alloc"
 	"github.com/mit-pdos/go-journal/common"
 	"github.com/mit-pdos/go-journal/lockmap"
@@ -20,19 +21,20 @@ type FsState struct {
 	Ialloc  *alloc.Alloc
 }
 
-func readBitmap(super *super.FsSuper, start common.Bnum, len uint64) []byte {
+func readBitmap(log *obj.Log, start common.Bnum, len uint64) []byte {
 	var bitmap []byte
 	for i := uint64(0); i < len; i++ {
-		blk := super.Disk.Read(uint64(start) + i)
+		// through the journal: committed transactions may not be installed yet
+		blk := log.Load(addr.MkAddr(start+common.Bnum(i), 0), common.NBITBLOCK).Data
 		bitmap = append(bitmap, blk...)
 	}
 	return bitmap
 }
 
 func MkFsState(super *super.FsSuper, log *obj.Log) *FsState {
-	balloc := alloc.MkAlloc(readBitmap(super, super.BitmapBlockStart(),
+	balloc := alloc.MkAlloc(readBitmap(log, super.BitmapBlockStart(),
 		super.NBlockBitmap))
-	ialloc := alloc.MkAlloc(readBitmap(super, super.BitmapInodeStart(),
+	ialloc := alloc.MkAlloc(readBitmap(log, super.BitmapInodeStart(),
 		super.NInodeBitmap))
 	icache := cache.MkCache(ICACHESZ)
 	st := &FsState{
